@@ -23,8 +23,6 @@ def known(r):
     """records inside the scope of an open finding do not calibrate the envelope"""
     if r["cls"] == "CylinderSegment" and r.get("raxis", 1e30) < 1e-3:
         return True
-    if r["cls"] == "TriangularMesh" and r.get("coplanar") == ">=2" and r["field"] == "B":
-        return True
     return False
 
 
